@@ -1413,7 +1413,7 @@ class CurveEngineC09:
 
     def generate(self, rng, tier, index):
         cfg = curves.gen_curve_cfg(rng, allow_recorded=rng.random() < 0.3,
-                                   big=rng.random() < 0.75)
+                                   big=rng.random() < 0.6)
         swarm = {"faults": rng.random() < 0.4,
                  "invalid": rng.random() < 0.4,
                  "few_configs": rng.random() < 0.5}
@@ -1422,9 +1422,18 @@ class CurveEngineC09:
         pool = [gen_rate_kw(rng) for _ in range(2 if swarm["few_configs"]
                                                 else 4)]
         ops = []
-        if rng.random() < 0.2:
+        if rng.random() < 0.35:
+            # rate the untouched curve first; often followed by a state
+            # change that leaves the fit hash at 'none' and the same rating
+            # request again
             kw, ts = rng.choice(pool)
             ops.append({"op": "rate", "kw": kw, "ts": ts})
+            if rng.random() < 0.5:
+                ops.append(gen_setfp(rng) if rng.random() < 0.6 else
+                           {"op": "prep", "route": "apply",
+                            "steps": gen_pipeline(rng), "options": None})
+                ops.append({"op": "rate", "kw": copy.deepcopy(kw),
+                            "ts": ts})
         if rng.random() < 0.85:
             ops.append({"op": "prep", "route": "apply",
                         "steps": ["compute_tip_position",
